@@ -191,7 +191,35 @@ def check_forwarding_partial(ctx, oparams, cparams, by_keyword, dress=None):
               'a callee bound by keyword was used to resolve the forwarding (keywords must not resolve callee parameters)',
               dict(w, result=show(sig), plain=show(plain)), rp)
         return
-    # soundness by execution; exactness against the declared equivalent
+    # soundness by execution; exactness against the declared equivalent -- now, and once more on the
+    # SAME partial object after the callee it binds changed what it accepts (its defaults are replaced:
+    # every positional parameter optional, or none): nothing remembered from the first retrieval may show
+    for round_ in (0, 1):
+        if round_ == 1:
+            npos = len([q for q in cparams if q[1] in (PO, PK)])
+            if not npos or (case_no_mutation(oparams, cparams)):
+                return
+            had = callee.__defaults__
+            callee.__defaults__ = None if had else tuple(range(npos))
+            cparams = tuple((q[0], q[1], (None if had else '0') if q[1] in (PO, PK) else q[2], q[3]) for q in cparams)
+            ctx.count('C19.requeried_after_callee_changed')
+            w = dict(w, callee_now=show_params(cparams), note='second retrieval on the same partial object after callee.__defaults__ was replaced')
+            try:
+                sig = sigtools.signature(p)
+            except Exception as e:
+                V(ctx, 'forwarding-partial-raises', 'sigtools.signature raised %s on a partial of a forwarding wrapper' % type(e).__name__,
+                  dict(w, exception=repr(e)), rp)
+                return
+            plain = signatures.signature(p)
+        judge_forwarding_partial(ctx, sigtools, signatures, p, outer, callee, oparams, cparams, dress, ova, ovk, sig, plain, w, rp)
+
+
+def case_no_mutation(oparams, cparams):
+    # (replacing defaults is only meaningful when the callee has positional parameters; kept as a hook)
+    return False
+
+
+def judge_forwarding_partial(ctx, sigtools, signatures, p, outer, callee, oparams, cparams, dress, ova, ovk, sig, plain, w, rp):
     ob = sigs.shape_key(oparams)
     full_outer = (('func', PK, None, None),) + tuple(ob)
     if dress:
